@@ -52,7 +52,7 @@ ASSUMPTIONS = [
     "second async configuration: the leaf is the real AsyncioTransportStreamSocketAdapter on a FakeSocket (tx pipe unbounded or 1024 bytes, drained by the relay at every step)",
 ]
 BOUNDS = {
-    "quick": "deviation bound 2 on 8 script pairs x 16 configurations (128 explorations); bound 1 on the 6x6 mid script pairs x 4 version/role "
+    "quick": "deviation bound 2 on 8 script pairs x 8 configurations (64 explorations); bound 1 on the 6x6 mid script pairs x 4 version/role "
              "configurations, on 64 configurations over the real asyncio socket adapter (FakeSocket, tx pipe unbounded / 1024 bytes) and on 576 "
              "blocking configurations; default delivery on one in 8 of the 155x155 script pairs (shifted diagonals); uniform fragmentations "
              "{1,2,3,5,7,64,1000} on 6 script pairs",
@@ -187,6 +187,10 @@ def run_async(ctx: Ctx, cfg: dict) -> dict:
         out["phase"] = "done"
         relay.drain()
         out["leaf_closed"] = leaf.is_closing()
+        if sock is not None:
+            for _ in range(3):  # asyncio closes the socket in a call_soon callback
+                await asyncio.sleep(0)
+            out["leaf_closed"] = leaf.is_closing() and sock.closed_flag
 
     status, value, loop = vloop.run(world, main)
     leaf = holder.get("leaf")
@@ -322,13 +326,13 @@ def _first_diff(a: bytes, b: bytes) -> int:
 def oracle(obs: dict, cfg: dict) -> tuple[str, str] | None:
     """-> (key suffix, message) or None."""
     both = f"{cfg['recv']}+{cfg['send']}"
+    if obs["leak"]:
+        return f"{cfg['send']}/plaintext-leak", obs["leak"]
     if obs["status"] != "ok":
         sym = {"deadlock": "deadlock", "horizon": "no-progress-within-horizon"}.get(obs["status"], "unexpected-exception")
         if obs["status"] == "exc":
             sym += ":" + (obs["error"] or "?").split(":")[0]
         return f"{both}/{obs['phase']}-{sym}", f"session did not complete: {obs['status']} in phase {obs['phase']}: {obs['error']}"
-    if obs["leak"]:
-        return f"{cfg['send']}/plaintext-leak", obs["leak"]
     if obs["lib_received"] != obs["expected_lib"]:
         got, exp = obs["lib_received"], obs["expected_lib"]
         return (f"{cfg['recv']}/plaintext-mismatch",
@@ -337,6 +341,8 @@ def oracle(obs: dict, cfg: dict) -> tuple[str, str] | None:
         got, exp = obs["peer_received"], obs["expected_peer"]
         return (f"{cfg['send']}/peer-plaintext-mismatch",
                 f"peer read {len(got)} bytes, library wrote {len(exp)}; first difference at offset {_first_diff(got, exp)}")
+    if not obs.get("leaf_closed", True):
+        return f"{both}/close-left-transport-open", "aclose() returned and the wrapped transport is still open"
     if obs["unhandled"]:
         return f"{both}/unhandled-loop-exception", repr(obs["unhandled"][:2])
     return None
@@ -391,11 +397,14 @@ def jobs(tier: str) -> list[dict]:
     out: list[dict] = []
     deep, mid, low = (2, 1, 0) if tier == "quick" else (3, 2, 1)
     vr = [(v, r) for v in tlsrig.VERSIONS for r in tlsrig.ROLES]
-    # (A) deep: 8 script pairs x 2 versions x 2 roles x 4 (recv, send) variants, alternating the secondary dimensions
+    # (A) deep: 8 script pairs x 2 versions x 2 roles x 4 (recv, send) variants (quick: 2 of the 4), alternating the
+    # secondary dimensions (buffer size, gating, task order, leaf send checkpoints)
     i = 0
-    for pair in DEEP_PAIRS:
-        for v, r in vr:
-            for recv, send in VARIANTS:
+    for pi, pair in enumerate(DEEP_PAIRS):
+        for ci, (v, r) in enumerate(vr):
+            for vi, (recv, send) in enumerate(VARIANTS):
+                if tier == "quick" and (vi + pi + ci) % 2:
+                    continue  # quick: two of the four (recv, send) variants per script pair and version/role, rotated
                 i += 1
                 cfg = _base("async", v, r, recv, send, pair[0], pair[1], bufsize=(65536, 1000)[i % 2], gate=("duplex", "lib-first")[(i // 2) % 2],
                             order=("rw", "wr")[(i // 4) % 2], send_checkpoints=(0, 1)[(i // 3) % 2])
